@@ -1219,6 +1219,11 @@ class Eval:
             return ClsV("%s.%s" % (self.module.name, n.id))
         if n.id in ("True", "False"):
             return BoolV(n.id == "True")
+        g = self.module.globals.get(n.id)
+        if not self.spec and isinstance(g, ast.Constant) and isinstance(g.value, (int, float)) and not isinstance(g.value, bool):
+            # module-level numeric constant (assigned once at module level; reassignment elsewhere is not tracked: A-SEM)
+            if sum(1 for b in self.module.tree.body if isinstance(b, ast.Assign) and any(isinstance(t, ast.Name) and t.id == n.id for t in b.targets)) == 1:
+                return self.ev(g, st)
         from . import npmodel
         if n.id in npmodel.BUILTINS:
             return FnV(qual="builtins." + n.id)
